@@ -92,6 +92,8 @@ struct MockState {
     reply: Reply,
     count: u64,
     seen: Option<Value>,
+    /// `hx-grpc statusdata`: what the status service answers ({"has":bool,"d":{..}} in the vocabulary of spec/GrpcStatus.tla)
+    statusdata: Option<Value>,
 }
 
 type Shared = Arc<Mutex<MockState>>;
@@ -171,8 +173,118 @@ impl Status for Mock {
         seen["server"] = addr_json(&r.server_address);
         seen["protocol"] = json!(r.protocol);
         st.seen = Some(seen);
-        Ok(tonic::Response::new(pb::StatusResponse { status: None }))
+        let status = st.statusdata.as_ref().filter(|c| c["has"].as_bool().unwrap_or(false)).map(|c| status_concrete(&c["d"]));
+        Ok(tonic::Response::new(pb::StatusResponse { status }))
     }
+}
+
+// ---- spec/GrpcStatus.tla: label <-> concrete value (fixed before the run)
+const DESCR_OBJECT: &str = r#"{"text":"A \u00a7aMOTD","extra":[{"text":"x","bold":true}]}"#;
+const DESCR_STRING: &str = r#""plain motd""#;
+const DESCR_NOTJSON: &str = "plain motd";
+const FAVICON_UTF8: &str = "data:image/png;base64,iVBORw0KGgo=";
+
+fn status_concrete(d: &Value) -> pb::StatusData {
+    let s = |v: &Value| v.as_str().unwrap_or("absent").to_string();
+    pb::StatusData {
+        version: if d["version"]["some"].as_bool().unwrap_or(false) {
+            Some(pb::ProtocolVersion { name: s(&d["version"]["name"]), protocol: d["version"]["protocol"].as_i64().unwrap_or(0) as i32 })
+        } else {
+            None
+        },
+        players: if d["players"]["some"].as_bool().unwrap_or(false) {
+            Some(pb::Players {
+                online: d["players"]["online"].as_u64().unwrap_or(0) as u32,
+                max: d["players"]["max"].as_u64().unwrap_or(0) as u32,
+                samples: d["players"]["samples"].as_array().cloned().unwrap_or_default().iter().map(|p| pb::PlayerEntry { name: s(&p["name"]), id: s(&p["id"]) }).collect(),
+            })
+        } else {
+            None
+        },
+        description: match s(&d["descr"]).as_str() {
+            "object" => Some(DESCR_OBJECT.to_string()),
+            "string" => Some(DESCR_STRING.to_string()),
+            "notjson" => Some(DESCR_NOTJSON.to_string()),
+            "empty" => Some(String::new()),
+            _ => None,
+        },
+        favicon: match s(&d["favicon"]).as_str() {
+            "utf8" => Some(FAVICON_UTF8.as_bytes().to_vec()),
+            "notutf8" => Some(vec![0xff, 0xfe, 0x00, 0x41]),
+            _ => None,
+        },
+        enforces_secure_chat: match s(&d["secure"]).as_str() {
+            "yes" => Some(true),
+            "no" => Some(false),
+            _ => None,
+        },
+    }
+}
+
+/// What the adapter returned, back in the vocabulary of the specification ("other:.." for anything without a label).
+fn status_abstract(st: &passage_adapters::ServerStatus) -> Value {
+    let descr = match &st.description {
+        None => "absent".to_string(),
+        Some(r) if r.get() == DESCR_OBJECT => "object".into(),
+        Some(r) if r.get() == DESCR_STRING => "string".into(),
+        Some(r) => format!("other:{}", r.get()),
+    };
+    let favicon = match &st.favicon {
+        None => "absent".to_string(),
+        Some(f) if f == FAVICON_UTF8 => "utf8".into(),
+        Some(f) => format!("other:{f}"),
+    };
+    let secure = match st.enforces_secure_chat {
+        None => "absent",
+        Some(true) => "yes",
+        Some(false) => "no",
+    };
+    let players = match &st.players {
+        None => json!({"some": false, "online": 0, "max": 0, "samples": []}),
+        Some(p) => json!({"some": true, "online": p.online, "max": p.max,
+                          "samples": p.sample.clone().unwrap_or_default().iter().map(|x| json!({"name": x.name, "id": x.id})).collect::<Vec<_>>()}),
+    };
+    json!({"version": {"some": true, "name": st.version.name, "protocol": st.version.protocol}, "players": players, "descr": descr, "favicon": favicon, "secure": secure})
+}
+
+fn no_status() -> Value {
+    json!({"version": {"some": false, "name": "", "protocol": 0}, "players": {"some": false, "online": 0, "max": 0, "samples": []}, "descr": "absent", "favicon": "absent", "secure": "absent"})
+}
+
+async fn run_statusdata(inp: String, outp: String) {
+    let listener = tokio::net::TcpListener::bind("127.0.0.1:0").await.unwrap_or_else(|e| fail(&format!("bind: {e}")));
+    let addr = listener.local_addr().unwrap();
+    let shared: Shared = Arc::new(Mutex::new(MockState::default()));
+    let s3 = shared.clone();
+    tokio::spawn(async move {
+        let _ = tonic::transport::Server::builder().add_service(StatusServer::new(Mock(s3))).serve_with_incoming(tokio_stream::wrappers::TcpListenerStream::new(listener)).await;
+    });
+    let stat = Arc::new(GrpcStatusAdapter::new(format!("http://{addr}")).await.unwrap_or_else(|e| fail(&format!("status adapter: {e}"))));
+    let text = std::fs::read_to_string(&inp).unwrap_or_else(|e| fail(&format!("{inp}: {e}")));
+    let mut out = String::new();
+    let client: SocketAddr = "203.0.113.7:40123".parse().unwrap();
+    for (k, line) in text.lines().filter(|l| !l.trim().is_empty()).enumerate() {
+        let case: Value = serde_json::from_str(line).unwrap_or_else(|e| fail(&format!("line {}: {e}", k + 1)));
+        {
+            let mut st = shared.lock().unwrap();
+            st.statusdata = Some(case.clone());
+            st.count = 0;
+            st.seen = None;
+        }
+        let s = stat.clone();
+        let h = tokio::spawn(async move { s.status(&client, ("play.example.org", 25565), 769).await });
+        let got = match tokio::time::timeout(Duration::from_secs(20), h).await {
+            Ok(Ok(Ok(Some(st)))) => json!({"ok": true, "some": true, "st": status_abstract(&st), "error": ""}),
+            Ok(Ok(Ok(None))) => json!({"ok": true, "some": false, "st": no_status(), "error": ""}),
+            Ok(Ok(Err(e))) => json!({"ok": false, "some": false, "st": no_status(), "error": e.to_string()}),
+            Ok(Err(e)) => json!({"ok": false, "some": false, "st": no_status(), "error": format!("PANIC {e}"), "panic": true}),
+            Err(_) => json!({"ok": false, "some": false, "st": no_status(), "error": "TIMEOUT", "timeout": true}),
+        };
+        let seen = shared.lock().unwrap().seen.take().unwrap_or_else(|| empty_seen(0));
+        out.push_str(&json!({"line": k + 1, "has": case["has"], "d": case["d"], "got": got, "seen": seen}).to_string());
+        out.push('\n');
+    }
+    std::fs::write(&outp, out).unwrap_or_else(|e| fail(&format!("{outp}: {e}")));
 }
 
 fn target_out(t: &passage_adapters::Target) -> Value {
@@ -295,8 +407,9 @@ async fn run(inp: String, outp: String) {
 
 fn main() {
     let args: Vec<String> = std::env::args().collect();
-    if args.get(1).map(String::as_str) != Some("grpc") {
-        fail("usage: hx-grpc grpc --in scripts.ndjson --out obs.ndjson");
+    let sub = args.get(1).map(String::as_str).unwrap_or("");
+    if sub != "grpc" && sub != "statusdata" {
+        fail("usage: hx-grpc grpc|statusdata --in scripts.ndjson --out obs.ndjson");
     }
     let mut inp = None;
     let mut outp = None;
@@ -313,5 +426,9 @@ fn main() {
     // panics of the code under test are data, not noise
     std::panic::set_hook(Box::new(|_| {}));
     let rt = tokio::runtime::Builder::new_current_thread().enable_all().build().unwrap_or_else(|e| fail(&format!("runtime: {e}")));
-    rt.block_on(run(inp, outp));
+    if sub == "statusdata" {
+        rt.block_on(run_statusdata(inp, outp));
+    } else {
+        rt.block_on(run(inp, outp));
+    }
 }
